@@ -194,7 +194,8 @@ def run_case(workdir, case):
         prov.transaction_lock = SchedLock(sched, prov.transaction_lock, 'lock')
     obs = sqlite3.connect(path, timeout=5.0, isolation_level=None, check_same_thread=False)
     def snapshot():
-        return {r[0]: r[1] for r in obs.execute('select id, x from t order by id').fetchall()}
+        try: return {r[0]: r[1] for r in obs.execute('select id, x from t order by id').fetchall()}
+        except sqlite3.OperationalError: return None      # a connection sits on a PENDING/EXCLUSIVE lock between two calls
 
     if case['fine']:
         def before(ev):
@@ -330,6 +331,7 @@ def oracle(case, obs):
 
     for si, e in enumerate(obs['log']):
         i, kind, payload, db = e['t'], e['kind'], e['payload'], e['db']
+        if db is None: db = prev_db                # observer locked out (reported as a divergence by evaluate)
         th = case['threads'][i]
         immediate = MODES[th['mode']][1][0]
         performed, parked[i] = parked[i], (payload if kind == 'call' else None)
@@ -368,7 +370,7 @@ def oracle(case, obs):
                     stable[t] = {}
                     break
         prev_db = db
-    final = obs['final']
+    final = obs['final'] if obs['final'] is not None else prev_db
     all_inc = all(a[2] == 'inc' for th in case['threads'] for a in th['prog'] if a[0] == 'update')
     if all_inc:
         for o in OBJS:
@@ -635,6 +637,10 @@ def evaluate(ctx, cases, res):
             ctx.count('violation:' + kind)
             ctx.violation(text, case_json(c), observed=detail, expected='the locked / serializably read row keeps its value until the locker ends; writers wait or fail; no committed write is lost',
                           key=case_key(kind, c))
+        if obs['problem'] is None and (obs['final'] is None or any(e['db'] is None for e in obs['log'])):
+            ctx.divergence('the observer connection was locked out between two DB-API calls: some connection keeps a PENDING/EXCLUSIVE file lock '
+                           'while it is not executing anything, which the modelled protocol (BEGIN IMMEDIATE ... COMMIT) never does', case_json(c),
+                           impl=[[e['t'], e['kind'], e['payload']] for e in obs['log'] if e['db'] is None][:5])
         for e in obs['log']:
             if e['kind'] != 'call': ctx.count('step:' + e['kind'])
             if e['kind'] == 'end': ctx.count('session-end:' + e['payload'][1].split(':')[0] + (':' + e['payload'][1].split(':')[1] if e['payload'][1].startswith('other') else ''))
